@@ -77,6 +77,11 @@ def record_and_validate(run, nv, mode, count, kinds, label, shards=8):
     run.extra.setdefault("i2s", {})[label] = {"records": len(lines), "accepted": acc, "rejected": len(rej),
                                                "kinds": summary["kinds"], "distinct_functions": summary["distinct_functions"],
                                                "panics": summary["panics"], "nv": nv}
+    if "calls" in summary:
+        # mode "history": one environment; the harness's truth-table oracle screens all calls, TLC validates every call it
+        # flags and a regular sample
+        run.extra["i2s"][label].update(calls_in_one_environment=summary["calls"], flagged_by_screen=summary["flagged_by_screen"],
+                                       max_table_size=summary["max_table_size"])
     run.sample({"direction": "impl->spec", "trace": label, "record": json.loads(lines[len(lines) // 2])})
     for i in rej:
         rec = json.loads(lines[i])
@@ -84,8 +89,18 @@ def record_and_validate(run, nv, mode, count, kinds, label, shards=8):
         sub = rec.get("op") or rec.get("kind") or rec.get("flt") or (rec.get("call", {}).get("k") if k == "panic" else "")
         run.violation("i2s:%s:%s:%s" % (label, k, sub),
                       "Trace_Bdd rejects the recorded call: " + lines[i].strip()[:600],
-                      {"mode": "exec-bdd", "nv": nv, "call": rec})
+                      {"mode": "exec-bdd", "nv": nv, "call": rec} if mode != "history" else
+                      {"mode": "bdd-history", "nv": nv, "count": count, "kinds": kinds, "label": label})
     return summary
+
+
+def replay_bdd_history(prop, rp):
+    """--replay for a call that went wrong late in a long history: the whole history is driven again"""
+    run = Run(prop, "quick")
+    record_and_validate(run, rp["nv"], "history", rp["count"], rp["kinds"], "replay_" + rp["label"])
+    for key, desc, _ in run.violations[:5]:
+        log("replay: %s" % desc[:400])
+    return not run.violations
 
 
 def replay_exec_bdd(prop, rp):
@@ -180,6 +195,11 @@ def c07(run):
     mc_bdd(run, "C07", 4)
     s = record_and_validate(run, 4, "allwf", 0, "model", "allwf", shards=16)
     record_and_validate(run, 7 if t else 6, "random", 5000 if t else 600, "model", "rand")
+    # a long history of model() calls in ONE environment (hundreds of thousands of distinct nodes pass through it)
+    record_and_validate(run, 5, "history", 300000, "model", "history_nv5")
+    if t:
+        record_and_validate(run, 6, "history", 600000, "model", "history_nv6")
+        record_and_validate(run, 7, "history", 150000, "model", "history_nv7")
     import checks_cli
     checks_cli.cli_model_retain(run, "model")
     run.nontrivial = s["distinct_functions"] - 2
@@ -200,4 +220,4 @@ def c20(run):
 
 
 CHECKS = {"C03": c03, "C04": c04, "C05": c05, "C07": c07, "C20": c20}
-REPLAYS = {"exec-bdd": replay_exec_bdd}
+REPLAYS = {"exec-bdd": replay_exec_bdd, "bdd-history": replay_bdd_history}
